@@ -776,13 +776,33 @@ pub struct ConnScn {
     pub faulty: bool,
     /// which error kind an injected read error produces (see `vnet::Wire::err_kind`)
     pub read_err_kind: u8,
+    /// Stray terminators: `(k, m)` = `m` extra NUL bytes (empty frames) directly behind the frame of call `k`.
+    /// An empty frame is not a message; zlink skips it. (A server that ended the connection there would be
+    /// within the property as well, see `check_reference`.)
+    pub stray: Vec<(usize, usize)>,
+}
+
+/// Number of complete non-empty frames in `bytes` (empty frames - stray terminators - carry no call).
+pub fn complete_frames(bytes: &[u8]) -> usize {
+    (0..bytes.len()).filter(|p| bytes[*p] == 0 && *p > 0 && bytes[*p - 1] != 0).count()
 }
 
 impl ConnScn {
     pub fn stream(&self, client: u32) -> Vec<u8> {
         match &self.raw {
             Some(r) => r.clone(),
-            None => self.calls.iter().flat_map(|c| c.bytes(client)).collect(),
+            None => {
+                let mut v = Vec::new();
+                for (k, c) in self.calls.iter().enumerate() {
+                    v.extend(c.bytes(client));
+                    for (at, m) in &self.stray {
+                        if *at == k {
+                            v.extend(std::iter::repeat(0u8).take(*m));
+                        }
+                    }
+                }
+                v
+            }
         }
     }
     pub fn chunks(&self, client: u32) -> Vec<Vec<u8>> {
@@ -829,7 +849,7 @@ impl Scenario {
                 "calls": c.calls.iter().map(|k| json!([match k.kind { Kind::Echo => "echo", Kind::Fail => "fail", Kind::Sub => "sub" }, k.seq, k.oneway, k.more, k.payload])).collect::<Vec<_>>(),
                 "raw": c.raw.as_ref().map(|r| hexs(r)),
                 "raw_text": c.raw.as_ref().map(|r| vnet::json::show(r)),
-                "cuts": c.cuts, "fail_write_at": c.fail_write_at, "wpp": c.write_pending_polls, "faulty": c.faulty, "rek": c.read_err_kind,
+                "cuts": c.cuts, "fail_write_at": c.fail_write_at, "wpp": c.write_pending_polls, "faulty": c.faulty, "rek": c.read_err_kind, "stray": c.stray,
             })).collect::<Vec<_>>(),
             "steps": steps_json(&self.steps),
             "wake": self.wake,
@@ -853,6 +873,7 @@ impl Scenario {
                 write_pending_polls: c["wpp"].as_u64().unwrap_or(0) as usize,
                 faulty: c["faulty"].as_bool().unwrap_or(false),
                 read_err_kind: c["rek"].as_u64().unwrap_or(0) as u8,
+                stray: c["stray"].as_array().map_or(Vec::new(), |a| a.iter().map(|x| (x[0].as_u64().unwrap() as usize, x[1].as_u64().unwrap() as usize)).collect()),
             }).collect(),
             steps: steps_from_json(&v["steps"]),
             wake: v["wake"].as_bool().unwrap_or(false),
@@ -890,7 +911,7 @@ impl Scenario {
                     None => format!("[{}]", c.calls.iter().map(|k| k.short()).collect::<Vec<_>>().join(" ")),
                 },
                 c.cuts,
-                c.fail_write_at.map_or(String::new(), |k| format!(" fail_write_at={k}")),
+                c.fail_write_at.map_or(String::new(), |k| format!(" fail_write_at={k}")) + &(if c.stray.is_empty() { String::new() } else { format!(" stray-terminators(behind call index, count)={:?}", c.stray) }),
                 if c.write_pending_polls > 0 { format!(" wpp={}", c.write_pending_polls) } else { String::new() },
             ));
         }
@@ -1017,8 +1038,12 @@ pub fn check_reference(prop: &str, scn: &Scenario, out: &WorldOut, stats: &mut B
         let delivered_events = out.applied.iter().map(|(_, e, _)| ev_count(e, &Ev::Deliver(i))).sum::<usize>().min(chunks.len());
         let sent_len: usize = chunks[..delivered_events].iter().map(|x| x.len()).sum();
         let sent = &stream[..sent_len];
-        let complete = sent.iter().filter(|b| **b == 0).count();
-        let on_boundary = sent.is_empty() || sent.last() == Some(&0);
+        let complete = complete_frames(sent);
+        // A peer that sends stray terminators (empty frames) is served by zlink as if they were not there. Ending
+        // the connection at the empty frame would be within the property too: if the server closed such a
+        // connection, only "a prefix of what is owed, in order" is demanded of it.
+        let closed_on_stray = !c.stray.is_empty() && out.checkpoints.last().map_or(false, |cp| cp.dropped[i]);
+        let on_boundary = (sent.is_empty() || sent.last() == Some(&0)) && !closed_on_stray;
         let produced = produced_until(&out.applied, final_tick);
         let (mut expected, _parked) = if released_ever {
             expected_frames(client, &c.calls[..complete.min(c.calls.len())], &produced)
@@ -1057,7 +1082,7 @@ pub fn check_reference(prop: &str, scn: &Scenario, out: &WorldOut, stats: &mut B
                 }
             };
             let pushed = &stream[..cp.pushed[i]];
-            let complete = pushed.iter().filter(|b| **b == 0).count();
+            let complete = complete_frames(pushed);
             let boundary = pushed.is_empty() || pushed.last() == Some(&0);
             let prod = produced_until(&out.applied, cp.tick);
             let (exp, _) = if cp.released[i] { expected_frames(client, &c.calls[..complete.min(c.calls.len())], &prod) } else { (Vec::new(), false) };
@@ -1067,7 +1092,7 @@ pub fn check_reference(prop: &str, scn: &Scenario, out: &WorldOut, stats: &mut B
                 v.push((format!("{prop}/output-at-quiescent-point-is-not-a-prefix-of-what-is-owed"), format!("conn{i} at tick {} (step {}): output {} ; owed so far {}", cp.tick, cp.step, Value::Array(at), Value::Array(exp))));
                 break;
             }
-            if boundary && at.len() != exp.len() {
+            if boundary && at.len() != exp.len() && !(closed_on_stray && cp.dropped[i]) {
                 v.push((format!("{prop}/complete-call-left-unanswered-at-quiescent-point"), format!("conn{i} at tick {} (step {}): output {} ; owed so far {}", cp.tick, cp.step, Value::Array(at), Value::Array(exp))));
                 break;
             }
